@@ -56,6 +56,8 @@ def mk_row(hs, spec):
     row['n'] = spec.get('n', 0)
     if spec.get('mk'):
         row['mk'] = hs.MARKER
+    if spec.get('lst'):
+        row['lst'] = [spec.get('n', 0)]      # a 3.0-only value: upgrades an unversioned grid
     return row
 
 
@@ -91,7 +93,14 @@ class GridMachine(BaseCheck):
             rows.append({'id': idspec, 'n': j if k.random() < 0.8 else 0, 'mk': k.random() < 0.5})
         if cls != 'unique-str' and k.random() < 0.5:
             rows[-1] = dict(rows[0])   # equal but not identical
-        case = {'class': cls, 'gver': k.choice([None, None, '2.0', '3.0']), 'rows': rows,
+        gver = k.choice([None, None, '2.0', '3.0'])
+        if gver != '2.0' and k.random() < 0.5:
+            # some rows carry a list, so that an unversioned grid's version is raised by a ROW (a slice must
+            # still report its source's version); never offered to a grid pinned below 3.0 (that refusal is C10)
+            for rw in rows:
+                if k.random() < 0.3:
+                    rw['lst'] = True
+        case = {'class': cls, 'gver': gver, 'rows': rows,
                 'lookup_every': k.choice([1, 1, 2, 3, 0]),
                 'ninit': k.choice([0, 0, 1, 2, 3, 4])}
         kinds = ['append', 'insert', 'extend', 'iadd', 'set', 'del', 'delslice', 'pop', 'popi', 'remove',
@@ -240,12 +249,20 @@ class GridMachine(BaseCheck):
         def present(model, row):
             return any(row is x for x in model)
 
+        derived_idx = set()      # pool positions holding derived grids (their version is explicit)
+
+        def v3(row_or_rows):
+            rs = row_or_rows if isinstance(row_or_rows, list) else [row_or_rows]
+            return any(isinstance(x, dict) and 'lst' in x for x in rs)
+
         for step, o in enumerate(case['ops']):
             if viol:
                 break
             steps += 1
             op = o['op']
-            g, model = pool[o.get('g', 0) % len(pool)]
+            gi_target = o.get('g', 0) % len(pool)
+            g, model = pool[gi_target]
+            pinned_pre3 = (gi_target in derived_idx or case.get('gver') is not None) and str(g.version) in ('2.0', '1.0')
             before_ids = [id(x) for x in model]
             gexc = mexc = None
             gret = mret = None
@@ -253,7 +270,13 @@ class GridMachine(BaseCheck):
             new_entry = None
             allow_prefix = None
             try:
-                if op == 'append':
+                if op in ('append', 'insert', 'set') and pinned_pre3 and v3(rows[o['r'] % len(rows)]):
+                    skipped = True
+                elif op in ('extend', 'iadd') and pinned_pre3 and v3([rows[x % len(rows)] for x in o['rs']]):
+                    skipped = True
+                elif op == 'extend_grid' and pinned_pre3 and v3(list(pool[o.get('src', 0) % len(pool)][1])):
+                    skipped = True
+                elif op == 'append':
                     row = rows[o['r'] % len(rows)]
                     if unique and present(model, row):
                         skipped = True
@@ -471,8 +494,10 @@ class GridMachine(BaseCheck):
                 entry = (ng, list(want))
                 if len(pool) < POOL_MAX:
                     pool.append(entry)
+                    derived_idx.add(len(pool) - 1)
                 else:
                     pool[1 + step % (POOL_MAX - 1)] = entry
+                    derived_idx.add(1 + step % (POOL_MAX - 1))
                 stats['derived_grids'] = stats.get('derived_grids', 0) + 1
             # ---- observe every live grid
             do_lookup = (op == 'lookup') or (lookup_every and step % lookup_every == 0) or step == len(case['ops']) - 1
